@@ -652,6 +652,9 @@ def passthrough_decorator(repo: Repo, fi, deco: str):
         mod, _, fn = mi.imports[name].rpartition(".")
         m2 = repo.modules.get(mod)
         target = m2.functions.get(fn) if m2 is not None else None
+    if target is None and last in ("lru_cache", "cache", "cached_property", "memoize", "memoized", "singledispatch"):
+        return False, (f"@{deco} keeps a table of earlier results: a later call with equal-looking arguments gets the stored answer, "
+                       "whatever the objects hold by then")
     if target is None:
         return None, f"decorator '{deco}' is not a function of the library"
     node = target.node
@@ -863,4 +866,64 @@ def check_model_state_untouched(rep, repo: Repo, pre: str = "") -> int:
                     if r[0] == "attr" and r[2] == "idx_nodes" and e.target[2] in ARRAY_MUTATORS:
                         rep.ev(pre + "INPLACE", e, False,
                                f".{e.target[2]}() on the conquest order idx_nodes: the order predict relies on is rearranged")
+    return n
+
+
+def check_alias_writeback(rep, repo: Repo, pre: str = "") -> int:
+    """ALIAS-writeback: `np.fill_diagonal(M, d)` / `np.copyto(M, v)` / `np.put(M, ix, v)` where the value written is a VIEW of
+    the array written (`d = M.diagonal()`, no copy): whatever was stored into M since the view was taken is what gets written
+    back - a save-and-restore that restores nothing.  Checked in every function of the library."""
+    from .effects import NP_INPLACE_FIRST_ARG
+    from .ir import Walker, show
+    n = 0
+    key = ("alias_writeback",)
+    if key not in repo.memo:
+        found = []
+        for fi in repo.all_functions():
+            src = repo.modules[fi.module].source if hasattr(repo.modules[fi.module], "source") else ""
+            txt = unparse(fi.node)
+            if not any(k.rsplit(".", 1)[1] in txt for k in NP_INPLACE_FIRST_ARG):
+                continue
+            try:
+                w = Walker(repo, fi, self_class=fi.cls)
+            except Exception:
+                continue
+            for e in w.events:
+                if e.kind == "call" and e.target is not None and e.target[0] == "mod" and e.target[1] in NP_INPLACE_FIRST_ARG \
+                        and len(e.args) >= 2:
+                    dst = view_root(e.args[0])
+                    for v in e.args[1:]:
+                        if isinstance(v, tuple) and v and v[0] not in ("const", "K") and view_root(v) == dst and v != e.args[0]:
+                            found.append((e, show(v)[:60], show(dst)[:40]))
+        repo.memo[key] = found
+    for e, v, dst in repo.memo[key]:
+        n += 1
+        rep.ev(pre + "ALIAS-writeback", e, False,
+               f"the value written, '{v}', is a view of the array it is written into ('{dst}'): it holds what was stored there "
+               "in the meantime, not what was there when it was taken (take a copy)")
+    return n
+
+
+def check_function_inplace(rep, w, rule: str, what: str) -> int:
+    """Nothing writes in place (through any view) into an argument of the function or into an array it returns, except plain
+    subscript stores into arrays the function allocated itself (those are how it builds its results)."""
+    from .ir import show
+    rets = [e for e in w.events if e.kind == "return" and e.fn is w.entry and e.value is not None]
+    result_roots = set()
+    for r in rets:
+        comps = list(r.value[1]) if r.value[0] == "tuple" else [r.value]
+        for c in comps:
+            result_roots.add(view_root(c))
+
+    def protected(r):
+        return r[0] == "param" or r in result_roots
+    n = 0
+    for e, r, how in inplace_writes(w, protected):
+        if e.kind == "store" and r[0] != "param":
+            continue  # filling one's own result element by element
+        if how.startswith("in-place method") and r[0] != "param" and e.target[2] in ("append", "extend", "insert"):
+            continue  # collecting results in a list of one's own
+        n += 1
+        rep.ev(rule, e, False, f"{how} on '{show(r)[:60]}' ({'an argument' if r[0] == 'param' else 'an array that is returned'} of {what}, "
+               "reached through a view): the caller's data / the result is rearranged by a statement that only meant to inspect it")
     return n
